@@ -3,6 +3,7 @@ import NixModel.Store.ApiW
 import NixModel.Generated.WriteOrder
 import NixModel.Generated.LinkOrder
 import NixModel.Generated.CopyOrder
+import NixModel.Generated.PropCreateOrder
 open Lean Nix.Store
 
 /-!
@@ -30,6 +31,9 @@ Additional ops:
         childrenValue]]       the copying functions of Pure/CopyWrite.lean run on the step lists of Generated/CopyOrder.lean
         from a container holding one item; answer {"err": null | class, "items": n, "last": null | {"fresh": b,
         "named": b, "props": b}}
+  ["propcreate_run", [memberOk, taken, nameValid, valuesOk, dtypeOk, valuesStorable]]       Section.create_property of
+        Pure/PropCreate.lean run on Generated/PropCreateOrder.lean from a section holding one property (named like the
+        new one iff taken); answer {"err": null | class, "items": n, "last": null | {"named": b, "id": b, "stamps": b, "values": b}}
 -/
 namespace Driver.C12
 open Driver Driver.Store
@@ -220,8 +224,26 @@ def copyRun (name : String) (kind nm keep children : Json) : Json :=
         | _ => Json.null)])
   | _, _, _, _ => bad "copy_run"
 
+open Nix.Guarded Nix.PropCreate in
+def propCreateRun (flags : Json) : Json :=
+  match (jArr flags).toList with
+  | [m, t, n, v, d, st] =>
+    let call : Call := ⟨jBool m, jBool t, jBool n, jBool v, jBool d, jBool st, 4, 5⟩
+    let old : Item := ⟨if jBool t then 4 else 1, true, true, some 1, some 1, true⟩
+    let r := runFn Nix.PropCreate.sys call Nix.Generated.PropCreateOrder.createProperty ⟨true, [old]⟩
+    ok (Json.mkObj [
+      ("err", match r.2 with | none => Json.null | some e => Json.str e.toString),
+      ("items", Json.num r.1.items.length),
+      ("old_kept", Json.bool (r.1.items.head? == some old)),
+      ("last", match r.1.items.reverse with
+        | i :: _ :: _ => Json.mkObj [("named", Json.bool i.named), ("id", Json.bool i.hasId),
+            ("stamps", Json.bool (i.created.isSome && i.updated.isSome)), ("values", Json.bool i.values)]
+        | _ => Json.null)])
+  | _ => bad "propcreate_run"
+
 def step (g : Graph) (j : Json) : Graph × Json :=
   match (jArr j).toList with
+  | [.str "propcreate_run", flags] => (g, propCreateRun flags)
   | [.str "copy_run", .str name, kind, nm, keep, children] => (g, copyRun name kind nm keep children)
   | [.str "link_run", .str name, caps, entries, col, rank, cols, state] => (g, linkRun name caps entries col rank cols state)
   | [.str "vec_set", .str name, stored, stamp, now, arg] => (g, vecSet name stored stamp now arg)
